@@ -247,7 +247,7 @@ T("C04", "cube-cellvecs-newaxis", F + "cube.py", r"cellvecs = axes \* shape\.res
 M("C05", "normalize-skips-uncontracted", F + "molden.py", r"    for shell in obasis\.shells:\n        shell_obasis = MolecularBasis\(", "    for shell in obasis.shells:\n        if shell.nexp == 1:\n            fixed_shells.append(copy.deepcopy(shell))\n            continue\n        shell_obasis = MolecularBasis(", "C05-R7")
 M("C06", "screening-last-exponent", "iodata/overlap.py", r"a0_min = np\.min\(shell0\.exponents\)", "a0_min = shell0.exponents[-1]", "C06-R6")
 T("C06", "screening-min-method", "iodata/overlap.py", r"a0_min = np\.min\(shell0\.exponents\)", "a0_min = shell0.exponents.min()")
-M("C12", "spinpol-other-predicate", "iodata/orbitals.py", r"                if \(self\.occs == self\.occs\.astype\(int\)\)\.all\(\):\n                    # restricted open-shell HF/KS\n                    nbeta", "                if np.isclose(self.occs, np.rint(self.occs)).all():\n                    # restricted open-shell HF/KS\n                    nbeta", "C12-R3")
+M("C12", "spinpol-other-predicate", "iodata/orbitals.py", r"                if \(self\.occs == self\.occs\.astype\(int\)\)\.all\(\):\n                    # restricted open-shell HF/KS\n                    nbeta", "                if np.isclose(self.occs, np.rint(self.occs)).all():\n                    # restricted open-shell HF/KS\n                    nbeta", "C12-R5")
 M("C12", "nbasis-pure-from-p", "iodata/basis.py", r'kind == "p" and angmom >= 2', 'kind == "p" and angmom >= 1', "C12-R6")
 T("C12", "nbasis-guard-rewritten", "iodata/basis.py", r'kind == "p" and angmom >= 2', 'kind == "p" and angmom > 1')
 M("C13", "sdf-frame-parser-back-inside-try", F + "sdf.py", r"        yield load_one\(lit\)\n", "        try:\n            yield load_one(lit)\n        except StopIteration:\n            return\n", "C13-R2")
